@@ -110,8 +110,12 @@ def analyse_sender(f, rep, co, label, push_before_write_ok=False, param_pred=Non
 
 
 def run(ctx, f, rep):
-    rr = [b for b in f.bodies if b.path.endswith("send_round_robin::{closure#0}")]
-    rep.floor("R10.1", "send_round_robin", len(rr), 1)
+    # the shared round-robin sender, by role: an async fn that is not a trait method and takes ids off the SegQueue rotation
+    def scope_calls(b, name):
+        return any(fn and fn["name"] == name and "SegQueue" in fn["path"] for k in pathq.scope(f, b) for bb, t, fn in k.calls())
+    rr = [b for b in f.bodies if b.j.get("coroutine_kind") and not (f.body(b.j.get("parent")) is not None and f.body(b.j.get("parent")).j.get("impl_trait"))
+          and "::test" not in b.path and scope_calls(b, "pop")]
+    rep.floor("R10.1", "shared round-robin sender (async fn popping the SegQueue rotation)", len(rr), 1)
     for co in rr:
         analyse_sender(f, rep, co, "send_round_robin",
                        param_pred=lambda e: any(isinstance(x, tuple) and x and x[0] == "field" and x[1] == ("arg", 1) for x in walk_expr(e)))
@@ -127,7 +131,7 @@ def run(ctx, f, rep):
         co = coroutine_of(f, outer)
         if co is None:
             continue
-        has_rr = any(fn and fn["name"] == "push" and "SegQueue" in fn["path"] for bb, t, fn in co.calls())
+        has_rr = scope_calls(co, "push")
         if not has_rr:
             continue
         with_rr += 1
